@@ -12,7 +12,8 @@ LEAN_FILE = 'PncProofs/C09.lean'
 NAMESPACE = 'Props.C09'
 LEAN_CONE = ['PncModel.Words', 'PncModel.Camx.Uamiv', 'PncModel.Camx.Slab', 'PncProofs.WordsLemmas', 'PncProofs.UamivLemmas', 'PncProofs.C09']
 LEMMA_FILES = ['PncProofs/WordsLemmas.lean', 'PncProofs/UamivLemmas.lean']
-REQUIRED_THEOREMS = ['tiles', 'header_counts', 'refDecode_encode', 'slab_tiles', 'slab_record_content']
+REQUIRED_THEOREMS = ['tiles', 'header_counts', 'refDecode_encode', 'slab_tiles', 'slab_record_content', 'cloud_rain_tiles',
+                     'cloud_rain_counts']
 RULE = ('uamiv files (all four NAME variants, 1-3 species with names up to 10 characters, nx, ny 1-4, nz 1-3, '
         '1-3 steps, begin/end flags with and without ETFLAG, any finite float32 payload incl. denormals and -0): '
         'kind write = library writer bytes vs the Lean encoder and an independent python record walker; kind '
@@ -22,10 +23,12 @@ RULE = ('uamiv files (all four NAME variants, 1-3 species with names up to 10 ch
         'float32 and float64 variables; slab formats (one3d, humidity, vertical diffusivity, temperature, height/pressure): '
         'kind swrite = bytes of the library writer (float32 or float64 input) vs the Lean encoder and an independent record '
         'walker (markers tile the file, every record carries the time, date and cells that were written, in the layout\'s order), '
-        'kind sread = reference-encoded bytes read by the Memmap reader vs the Lean reader model; '
+        'kind sread = reference-encoded bytes read by the Memmap reader vs the Lean reader model; cloud/rain files (3- and '
+        '5-variable layouts, variables defined in layout or in other orders): kind cwrite = library writer bytes vs the Lean '
+        'encoder and the record walker, kind cread = reference-encoded bytes read by the Memmap reader vs the encoded content; '
         'non-trivial = at least two of nspec, nx*ny, nz, nt are > 1 and pairwise different strides')
 ASSUMPTIONS = ['numpy tofile/memmap and float32 <-> bits conversion are trusted (exercised incl. denormals, -0)',
-               'covered: the uamiv family and the five slab formats; lateral_boundary, landuse, cloud_rain, wind and bpch (see C18) are not in this check']
+               'covered: the uamiv family, the five slab formats and cloud_rain (layout model, reader by oracle); lateral_boundary, landuse, wind and bpch (see C18) are not in this check']
 MIN_NONTRIVIAL = {'quick': 30, 'thorough': 300}
 
 
@@ -47,7 +50,134 @@ def gen(rng, tier):
         c['kind'] = 'swrite' if i % 2 == 0 else 'sread'
         c['vdtype'] = rng.choice(['f', 'f', 'd'])
         out.append(c)
+    for i in range(n // 4):
+        out.append(_gen_cr(rng, 'cwrite' if i % 2 == 0 else 'cread'))
     return out
+
+
+CRV5 = ['CLOUD', 'RAIN', 'SNOW', 'GRAUPEL', 'COD']
+CRV3 = ['CLOUD', 'PRECIP', 'COD']
+
+
+def _gen_cr(rng, kind):
+    c = S.gen(rng, 'one3d')
+    names = CRV5 if rng.random() < 0.6 else CRV3
+    n = c['nx'] * c['ny']
+    c['data'] = [[[camx.rand_f32_bits(rng) for _ in range(n)] for _ in range(c['nz'] * len(names))] for _ in c['flags']]
+    order = list(names)
+    if rng.random() < 0.5:
+        rng.shuffle(order)              # the order in which the input file defines the variables
+    c.update(kind=kind, names=names, order=order, desc=rng.choice(['CAMx_V4.3 CLOUD_RAIN', 'CAMx_V4.2 CLOUD_RAIN', 'CAMx_V6.0 CLOUD_RAIN extra'[:24]]),
+             vdtype=rng.choice(['f', 'f', 'd']))
+    return c
+
+
+def _cr_encode(c):
+    n = c['nx'] * c['ny']
+    hdr = c['desc'].encode() + struct.pack('>3i', c['nx'], c['ny'], c['nz'])
+    out = struct.pack('>i', len(hdr)) + hdr + struct.pack('>i', len(hdr))
+    for (d, hhmm), slabs in zip(c['flags'], c['data']):
+        out += struct.pack('>ifii', 8, float(hhmm), d, 8)
+        for sl in slabs:
+            out += struct.pack('>i', 4 * n) + struct.pack('>%dI' % n, *sl) + struct.pack('>i', 4 * n)
+    return out
+
+
+def _cr_line(c):
+    steps = '|'.join('%08x:%08x:%s' % (S.f32bits(float(hhmm)), d, ','.join(camx.hexwords(sl) for sl in slabs))
+                     for (d, hhmm), slabs in zip(c['flags'], c['data']))
+    return 'bin cr-enc desc=%s nx=%d ny=%d nz=%d steps=%s' % (c['desc'].encode().hex(), c['nx'], c['ny'], c['nz'], steps)
+
+
+def _cr_build(c):
+    import numpy as np
+    import PseudoNetCDF as pnc
+    nt, nz, ny, nx, nv = len(c['flags']), c['nz'], c['ny'], c['nx'], len(c['names'])
+    f = pnc.PseudoNetCDFFile()
+    f.createDimension('TSTEP', nt).setunlimited(True)
+    f.createDimension('LAY', nz)
+    f.createDimension('ROW', ny)
+    f.createDimension('COL', nx)
+    f.createDimension('VAR', nv)
+    f.createDimension('DATE-TIME', 2)
+    f.FILEDESC = c['desc']
+    bits = np.array(c['data'], dtype='>u4').view('>f4').reshape(nt, nz, nv, ny, nx)
+    tf = None
+    for k in c['order'] + ['TFLAG']:
+        if k == 'TFLAG':
+            tf = f.createVariable('TFLAG', 'i', ('TSTEP', 'VAR', 'DATE-TIME'))
+            for t, (d, hhmm) in enumerate(c['flags']):
+                tf[t, :, 0] = d + (2000 if d // 1000 < 70 else 1900) * 1000
+                tf[t, :, 1] = hhmm * 100
+        else:
+            v = f.createVariable(k, c['vdtype'], ('TSTEP', 'LAY', 'ROW', 'COL'))
+            v[:] = bits[:, :, c['names'].index(k)]
+    return f
+
+
+def _impl_cr(case):
+    import os
+    import numpy as np
+    from PseudoNetCDF.pncgen import pncgen
+    p = os.path.join(camx.tmpdir(), 'c09c_%d_%d.bin' % (os.getpid(), np.random.randint(1 << 30)))
+    try:
+        with lib.pnc_warnings():
+            if case['kind'] == 'cwrite':
+                pncgen(_cr_build(case), p, format='camxfiles.cloud_rain', verbose=0)
+                return dict(hex=open(p, 'rb').read().hex())
+            b = _cr_encode(case)
+            open(p, 'wb').write(b)
+            from PseudoNetCDF.camxfiles.cloud_rain.Memmap import cloud_rain
+            f = cloud_rain(p)
+            out = dict(hex=b.hex(), nt=len(f.dimensions['TSTEP']), nz=len(f.dimensions['LAY']), ny=len(f.dimensions['ROW']),
+                       nx=len(f.dimensions['COL']), vars={})
+            for k in case['names']:
+                arr = np.ascontiguousarray(np.asarray(f.variables[k][:]).astype('>f4')).view('>u4')
+                out['vars'][k] = arr.reshape(out['nt'], out['nz'], -1).tolist()
+            out['tflag'] = [[int(a), int(b_)] for a, b_ in np.asarray(f.variables['TFLAG'][:, 0, :])]
+            return out
+    except lib.HarnessError:
+        raise
+    except Exception as e:
+        return dict(err=type(e).__name__, msg=str(e)[:120])
+    finally:
+        if os.path.exists(p):
+            os.remove(p)
+
+
+def _oracle_cr(case, res):
+    if 'err' in res:
+        return 'raised %s %s' % (res['err'], res.get('msg'))
+    n, nv = case['nx'] * case['ny'], len(case['names'])
+    if case['kind'] == 'cwrite':
+        b = bytes.fromhex(res['hex'])
+        try:
+            recs = camx.walk_records(b)
+        except ValueError as e:
+            return 'records do not tile the file: %s' % e
+        if len(recs) != 1 + len(case['flags']) * (1 + case['nz'] * nv):
+            return '%d records, expected %d' % (len(recs), 1 + len(case['flags']) * (1 + case['nz'] * nv))
+        if struct.unpack('>3i', recs[0][-12:]) != (case['nx'], case['ny'], case['nz']):
+            return 'header counts %s, content %s' % (struct.unpack('>3i', recs[0][-12:]), (case['nx'], case['ny'], case['nz']))
+        k = 1
+        for (d, hhmm), slabs in zip(case['flags'], case['data']):
+            if struct.unpack('>fi', recs[k]) != (float(hhmm), d):
+                return 'time record %s, written %s' % (struct.unpack('>fi', recs[k]), (hhmm, d))
+            k += 1
+            for z in range(case['nz']):
+                for vi, name in enumerate(case['names']):
+                    if list(struct.unpack('>%dI' % n, recs[k])) != slabs[z * nv + vi]:
+                        return 'the record at the position of %s (layer %d) does not hold the values written for it' % (name, z)
+                    k += 1
+        return None
+    if (res['nt'], res['nz'], res['ny'], res['nx']) != (len(case['flags']), case['nz'], case['ny'], case['nx']):
+        return 'library reads dimensions %s' % ((res['nt'], res['nz'], res['ny'], res['nx']),)
+    for vi, name in enumerate(case['names']):
+        for t in range(res['nt']):
+            for z in range(case['nz']):
+                if res['vars'][name][t][z] != case['data'][t][z * nv + vi]:
+                    return 'library reads other values for %s step %d layer %d than were encoded' % (name, t, z)
+    return None
 
 
 def _impl_slab(case):
@@ -100,6 +230,8 @@ def _oracle_slab(case, res):
 
 
 def impl(case):
+    if case['kind'] in ('cwrite', 'cread'):
+        return _impl_cr(case)
     if case['kind'] in ('swrite', 'sread'):
         return _impl_slab(case)
     try:
@@ -117,6 +249,8 @@ def impl(case):
 
 
 def to_line(case, res):
+    if case['kind'] in ('cwrite', 'cread'):
+        return _cr_line(case)
     if case['kind'] == 'swrite':
         return 'bin slab-enc ' + S.lean_steps(case)
     if case['kind'] == 'sread':
@@ -131,7 +265,9 @@ def agree(case, out, res):
         return None if out.startswith('err') else 'impl raised %s (%s), model %s' % (res['err'], res.get('msg'), out[:60])
     if not out.startswith('ok '):
         return 'model %s, impl returned' % out[:60]
-    if case['kind'] == 'swrite':
+    if case['kind'] == 'cread':
+        return None if out[3:] == res['hex'] else 'the python reference encoder and the Lean encoder differ'
+    if case['kind'] in ('swrite', 'cwrite'):
         return None if out[3:] == res['hex'] else 'writer bytes differ from the reference encoding (first difference at byte %d)' % _firstdiff(out[3:], res['hex'])
     if case['kind'] == 'sread':
         _, kv = lib.parse_kv('x ' + out[3:])
@@ -155,6 +291,8 @@ def _firstdiff(a, b):
 
 def oracle(case, res):
     """independent python record walker: markers tile the file, header counts match, content recovered"""
+    if case['kind'] in ('cwrite', 'cread'):
+        return _oracle_cr(case, res)
     if case['kind'] in ('swrite', 'sread'):
         return _oracle_slab(case, res)
     if 'err' in res:
@@ -228,7 +366,7 @@ KEY_YEND = 'C08/uamiv-write/end-date-year-rollover'
 
 
 def classify(case, failure, model_out):
-    if case['kind'] in ('swrite', 'sread'):
+    if case['kind'] in ('swrite', 'sread', 'cwrite', 'cread'):
         return None
     if failure.startswith('end flag of a step ending at midnight 31 Dec'):
         return KEY_YEND
@@ -243,7 +381,7 @@ def _crosses_2000(case):
 
 
 def nontrivial(case, res):
-    if case['kind'] in ('swrite', 'sread'):
+    if case['kind'] in ('swrite', 'sread', 'cwrite', 'cread'):
         return len({case['nz'], case['nx'] * case['ny'], len(case['flags'])} - {1}) >= 2
     dims = [len(case['species']), case['nx'] * case['ny'], case['nz'], len(case['tflag'])]
     return sum(1 for d in dims if d > 1) >= 2
